@@ -51,13 +51,13 @@ Proof. intros s. split; [reflexivity|apply close_idempotent]. Qed.
 
 (* 3. departed clients leave nothing behind.  While the server runs: when its threads have nothing left to do, a client
       that has left is in no table.  (Server.clients of the thread pool: on a tree whose _accept_method discards the socket
-      of a failed authentication; the pool's own tables: provided a worker is idle or the queue is empty -- a pool whose
-      workers all sit in unfinished reads is C16's finding.)  After close(): the tables close() is responsible for are empty. *)
+      of a failed authentication; the pool's own tables: provided no worker thread has died and a worker is idle or the queue
+      is empty -- a pool whose workers all sit in unfinished reads, or whose workers were killed, is C16's business.)  After close(): the tables close() is responsible for are empty. *)
 Theorem c17_no_residue : forall s, reach s -> active s = true -> quiescent s ->
   forall c, gone (conns s c) = true ->
     stg (conns s c) <> Own /\ stg (conns s c) <> Authing
     /\ (clients_guard K -> mem c (clients s) = false)
-    /\ (pool_has_idle_worker s \/ queue s = [] ->
+    /\ (no_dead_worker s -> pool_has_idle_worker s \/ queue s = [] ->
         stg (conns s c) <> Pooled /\ mem c (fdmap s) = false /\ mem c (pollset s) = false /\ mem c (queue s) = false
         /\ cnt c (held s) = 0).
 Proof. exact (no_residue_running decomp decode K). Qed.
@@ -118,7 +118,7 @@ Theorem c17_program_is_current :
   /\ (exists before, Gen_server.pool_close_prog = Server.pool_close_prog_of before Gen_server.pool_close_drops)
   /\ Gen_server.pool_accept_prog = Server.pool_accept_prog_of Gen_server.pool_fail_discards
   /\ Gen_server.drop_prog = Server.drop_prog /\ Gen_server.poll_result_prog = Server.poll_result_prog
-  /\ Gen_server.serve_requests_prog = Server.serve_requests_prog
+  /\ Gen_server.serve_requests_prog = Server.serve_requests_prog_of Gen_server.pool_catches_base
   /\ Gen_server.conn_close_guarded = true /\ Gen_server.cleanup_runs_hook = true /\ Gen_server.serve_all_closes_in_finally = true.
 Proof.
   pose proof tie_base_progs. pose proof tie_accept_methods. pose proof tie_pool_progs. pose proof tie_endpoint_facts.
@@ -137,7 +137,7 @@ Print Assumptions c17_this_tree_threaded_oneshot.
 Definition no_z (b : list byte) : option (list byte) := None.
 Definition no_d (b : list byte) : option req := None.
 Definition KT (k : skind) (fix_ : bool) : cfg :=
-  {| kind := k; fx := {| Server.pool_close_drops := fix_; Server.pool_fail_discards := fix_; Server.fork_parent_keeps := false |};
+  {| kind := k; fx := {| Server.pool_close_drops := fix_; Server.pool_fail_discards := fix_; Server.fork_parent_keeps := false; Server.pool_catches_base := false |};
      has_auth := false; class_svc := true; nworkers := 2; batch := 10 |}.
 Definition runx (K : cfg) (l : list event) : option st := exec no_z no_d K l (init K).
 
